@@ -304,7 +304,10 @@ GuardedResult guarded_execute(Engine &e, const Plan &p, int timeout_s) {
     // fixed, minimal environment: the child's stack and heap layout must not
     // depend on who launched the check
     const char *cenv[] = {"PATH=/usr/local/sbin:/usr/local/bin:/usr/sbin:/usr/bin:/sbin:/bin", "SIM_NO_REEXEC=1",
-                          "LANG=C", nullptr};
+                          "LANG=C",
+                          // no per-thread cache in glibc's allocator: freed chunks then carry no
+                          // random key, so heap residue seen by a stray read is a function of the run
+                          "GLIBC_TUNABLES=glibc.malloc.tcache_count=0", nullptr};
     pid_t pid;
     int rc = posix_spawn(&pid, "/proc/self/exe", &fa, nullptr, (char *const *)cargv, (char *const *)cenv);
     posix_spawn_file_actions_destroy(&fa);
